@@ -57,6 +57,8 @@ def gen_ops(tier, rng):
     n = 400 if tier == "quick" else 6000
     for k in range(n):
         ds = dg.gen_dataset(rng)
+        if k % 6 == 5:
+            ds.cfg["obsrange"] = (0.0, 2.0)     # -obsrange removes the same cases for every input
         dims = dg.oracle_dims(ds)
         if dims is None:
             yield "data.req", dg.enc_op(ds, [(["obs", "fcst"], 0, "no", None)])
